@@ -374,6 +374,7 @@ class Client(tyming.Tymee):
             if  ex.args[0] in (errno.EAGAIN, errno.EWOULDBLOCK):
                 return None  # blocked waiting for data
             elif ex.args[0] in (errno.ECONNRESET,
+                                errno.EPIPE,
                                 errno.ENETRESET,
                                 errno.ENETUNREACH,
                                 errno.EHOSTUNREACH,
@@ -477,7 +478,11 @@ class Client(tyming.Tymee):
         Attempt to send all of .txbs. Delete what is actually sent.
         """
         while self.txbs and self.connected and not self.cutoff:
-            count = self.send(self.txbs)
+            try:
+                count = self.send(self.txbs)
+            except BrokenPipeError:  # far side gone, direct .send still raises
+                self.cutoff = True  # this signals need to close/reopen connection
+                break
             del self.txbs[:count]
             break  # try again later
 
@@ -683,6 +688,7 @@ class ClientTls(Client):
             if ex.args[0] in (ssl.SSL_ERROR_WANT_READ, ssl.SSL_ERROR_WANT_WRITE):
                 return None
             elif ex.args[0] in (errno.ECONNRESET,
+                                errno.EPIPE,
                                 errno.ENETRESET,
                                 errno.ENETUNREACH,
                                 errno.EHOSTUNREACH,
@@ -690,7 +696,7 @@ class ClientTls(Client):
                                 errno.EHOSTDOWN,
                                 errno.ETIMEDOUT,
                                 errno.ECONNREFUSED,
-                                ssl.SSLEOFError):
+                                ssl.SSL_ERROR_EOF):
 
                 self.cutoff = True  # this signals need to close/reopen connection
                 return bytes()  # data empty
@@ -729,7 +735,7 @@ class ClientTls(Client):
                                 errno.EHOSTDOWN,
                                 errno.ETIMEDOUT,
                                 errno.ECONNREFUSED,
-                                ssl.SSLEOFError):
+                                ssl.SSL_ERROR_EOF):
 
                 self.cutoff = True  # this signals need to close/reopen connection
                 result = 0
